@@ -1,7 +1,7 @@
 (* C14 — index-batched maps (commit_to_rows, get_inv_evaluation) and the local-index lookup of acc_column. *)
 From Coq Require Import List Arith Bool Lia PeanoNat Permutation.
 From VModel Require Import FFT Par.
-From VProofs Require Import ParCommute ParBatch.
+From VProofs Require Import ParCommute ParBatch ParMisc.
 Import ListNotations.
 
 Lemma pe_map_shift {A} (f : nat -> A) off l : map (fun i => f (off + i)) (seq 0 l) = map f (seq off l).
@@ -102,3 +102,56 @@ Proof. vm_compute. discriminate. Qed.
 Example acc_z_index_ex : exists cs, batch_iter_chunks true (2 ^ 10) 128 3 = Done cs /\ length cs = 4 /\
   acc_z_index_batched (2 ^ 7) cs = acc_z_index_serial (2 ^ 7) (2 ^ 10).
 Proof. eexists. split; [vm_compute; reflexivity|]. split; [reflexivity|]. vm_compute. reflexivity. Qed.
+
+(* ---------------------------------------------------------------- periodic-value lookups of the fragmented evaluator *)
+
+(* the code: lookup at the global step offset + i — equal to the single-fragment evaluation for EVERY partition *)
+Theorem periodic_global_index_spec tl n frags : covers n frags ->
+  periodic_rows_fragmented tl frags = periodic_rows_serial tl n.
+Proof. intros H. exact (map_batched_spec (fun r => r mod tl) n frags H). Qed.
+
+Corollary periodic_global_index_fragments conc k T tl : 4 <= k -> T <= 64 ->
+  exists cs, fragment_plan conc (2 ^ k) T = Done cs /\ periodic_rows_fragmented tl cs = periodic_rows_serial tl (2 ^ k).
+Proof.
+  intros Hk HT. destruct (ParMisc.fragment_plan_T_le_64 conc k T Hk HT) as (cs & E & Hc).
+  exists cs. split; [exact E|]. apply periodic_global_index_spec; exact Hc.
+Qed.
+
+(* a fragment-local lookup is WRONG as soon as there are two non-empty fragments and the table is longer than the first *)
+Theorem periodic_local_index_wrong tl n cs o0 sz o1 sz' rest : covers n cs ->
+  cs = (o0, sz) :: (o1, sz') :: rest -> 1 <= sz -> 1 <= sz' -> sz < tl ->
+  periodic_rows_local tl cs <> periodic_rows_serial tl n.
+Proof.
+  intros [_ Hs] -> H1 H2 Hlt E.
+  assert (Hn : sz + sz' <= n).
+  { rewrite <- Hs. cbn [map snd list_sum fold_right]. lia. }
+  apply (f_equal (fun l => nth sz l 0)) in E.
+  unfold periodic_rows_local, periodic_rows_serial in E. cbn [flat_map fst snd] in E.
+  rewrite app_nth2 in E by (rewrite map_length, seq_length; lia).
+  rewrite map_length, seq_length, Nat.sub_diag in E.
+  destruct sz' as [|sz'']; [lia|]. cbn [seq map app nth] in E.
+  rewrite (nth_indep _ 0 (0 mod tl)) in E by (rewrite map_length, seq_length; lia).
+  rewrite (map_nth (fun i => i mod tl)), seq_nth in E by lia.
+  rewrite Nat.mod_0_l, Nat.add_0_l, Nat.mod_small in E by lia. lia.
+Qed.
+
+(* ... and invisible exactly when the table length divides every fragment offset *)
+Theorem periodic_local_index_ok tl cs n : tl <> 0 -> covers n cs -> Forall (fun c => fst c mod tl = 0) cs ->
+  periodic_rows_local tl cs = periodic_rows_serial tl n.
+Proof.
+  intros Hz [Hc Hs] HF. unfold periodic_rows_serial. rewrite <- Hs.
+  exact (pe_acc_from tl cs Hz 0 Hc HF).
+Qed.
+
+(* witness = the demo of seeded change C14-r3prover3: trace 4096, ce blowup 2 (8192 rows), cycle 4096 (table 8192), 2 threads *)
+Example periodic_local_index_refuted : exists cs, fragment_plan true (2 ^ 13) 2 = Done cs /\ length cs = 2 /\
+  periodic_rows_local (2 ^ 13) cs <> periodic_rows_serial (2 ^ 13) (2 ^ 13).
+Proof.
+  exists [(0, 2 ^ 12); (2 ^ 12, 2 ^ 12)]. split; [vm_compute; reflexivity|]. split; [reflexivity|].
+  apply (periodic_local_index_wrong (2 ^ 13) (2 ^ 13) _ 0 (2 ^ 12) (2 ^ 12) (2 ^ 12) []); try reflexivity.
+  - split; [cbn [consecutive fst snd]; repeat split; reflexivity|].
+    cbn [map snd list_sum fold_right]. rewrite Nat.add_0_r. change (2 ^ 13) with (2 * 2 ^ 12). lia.
+  - pose proof (pe_pow2_pos 12). lia.
+  - pose proof (pe_pow2_pos 12). lia.
+  - change (2 ^ 13) with (2 * 2 ^ 12). pose proof (pe_pow2_pos 12). lia.
+Qed.
